@@ -337,6 +337,18 @@ def replay_state(state):
             obs["upd_calls"] = [_obs_call(el2, v, skip=drive.default_ids(el2)) for v in pyvals]
         except Exception as exc:  # noqa
             obs["upd_err"] = type(exc).__name__ + ": " + str(exc)[:120]
+    # the same (labelled) document dictionary parsed a second time, as happens to a sub-document
+    # that several references share: the second parse must describe the same schema
+    if state.get("dobs") or (isinstance(sj, dict) and "default" in json.dumps(sj)):
+        try:
+            from statham.schema.parser import parse_element
+            shared = drive.label(copy.deepcopy(sj)) if isinstance(sj, dict) else sj
+            parse_element(shared)
+            el3 = parse_element(shared)
+            obs["again_calls"] = [_obs_call(el3, v, skip=drive.default_ids(el3)) for v in pyvals]
+            obs["again_np"] = _obs_call(el3, NotPassed(), skip=drive.default_ids(el3))
+        except Exception as exc:  # noqa
+            obs["again_err"] = type(exc).__name__ + ": " + str(exc)[:120]
     edef = getattr(el, "default", NotPassed())
     if isinstance(edef, NotPassed):
         obs["edef"] = codec.NotPassedMarker()
